@@ -80,6 +80,10 @@ func TestWorker(t *testing.T) {
 		return
 	}
 	keys := map[uint64]struct{}{}
+	crashProne := false
+	if cp, ok := prop.(interface{ CrashProne() bool }); ok {
+		crashProne = cp.CrashProne()
+	}
 	if job.MaxRuns == 0 {
 		job.MaxRuns = prop.Runs(job.Tier)
 	}
@@ -108,6 +112,11 @@ func TestWorker(t *testing.T) {
 		tape := NewTape(job.Seed, job.Property, run)
 		c := prop.Gen(tape, job.Tier, run)
 		x := NewExec(t, tape, res.Stats)
+		if crashProne {
+			// a fatal runtime error (stack overflow, out of memory) cannot be
+			// recovered: leave a note saying which run was executing
+			os.WriteFile(job.Out+".inflight", []byte(fmt.Sprint(run)), 0o644)
+		}
 		t0 := time.Now()
 		vd := prop.Exec(x, c)
 		if d := time.Since(t0); d > 2*time.Second && os.Getenv("HTSV_SLOW") != "" {
@@ -203,11 +212,19 @@ func runReplay(t *testing.T, prop Property, job *Job, res *WorkerResult) {
 	if err := json.Unmarshal(b, &rp); err != nil {
 		panic(err)
 	}
-	c := prop.New()
-	if err := json.Unmarshal(rp.Case, c); err != nil {
-		panic(err)
+	var c interface{}
+	var x *Exec
+	if rp.Regen {
+		tape := NewTape(rp.Seed, rp.Property, rp.Run)
+		c = prop.Gen(tape, rp.Tier, rp.Run)
+		x = NewExec(t, tape, res.Stats)
+	} else {
+		c = prop.New()
+		if err := json.Unmarshal(rp.Case, c); err != nil {
+			panic(err)
+		}
+		x = NewExec(t, ReplayTape(rp.Tapes), res.Stats)
 	}
-	x := NewExec(t, ReplayTape(rp.Tapes), res.Stats)
 	vd := prop.Exec(x, c)
 	res.Stats.Runs++
 	res.ReplaySig = x.Sig
